@@ -165,3 +165,91 @@ Definition tag_stream (doc : bytes) : list tag_event :=
   rev r.(rw_stream).(s_ctx).(c_disp).(d_ctl).(tc_events).
 Definition css_expected (sels : list selector) (doc : bytes) : list (nat * list nat) :=
   expected sels (tag_stream doc) (mkTree [] []).
+
+(* ================= scoped dispatch (property C05): the reference handler-invocation sequence ================= *)
+(* what is registered: per selector an optional element handler (with the number of end-tag handlers it attaches to the
+   element each time it runs), a comment handler, a text handler; per document-handler block doctype/comment/text/end *)
+Record sel_feat := mkSF { sf_sel : selector; sf_el : option nat; sf_cm : bool; sf_tx : bool }.
+Record doc_feat := mkDF { df_dt : bool; df_cm : bool; df_tx : bool; df_end : bool }.
+Inductive xkind := XEl | XEt | XCm | XTx | XDt | XEnd.
+(* x_idx: registration index within the kind (selector-scoped handlers first, then document-level ones);
+   for XEt the start offset of the element the handler was attached to.  x_loc: start offset of the token *)
+Record xevent := mkX { x_kind : xkind; x_idx : nat; x_loc : nat; x_end : nat (* end offset, text tokens only *) }.
+
+Inductive stream_event :=
+| SeStart (name : bytes) (n : ns) (attrs : list (bytes * bytes)) (sc : bool) (loc : nat)
+| SeEnd (name : bytes) (loc : nat)
+| SeText (loc : nat) (e : nat) | SeComment (loc : nat) | SeDoctype (loc : nat).
+
+Record sopen := mkSO { so_el : elem; so_children : list bytes; so_matched : list nat; so_start : nat; so_oe : nat }.
+Record sstate := mkSS2 { ss_open : list sopen; ss_root_children : list bytes }.
+
+Fixpoint split_closed (name : bytes) (l : list sopen) (acc : list sopen) : option (list sopen * list sopen) :=
+  match l with
+  | [] => None
+  | o :: r => if name_eq o.(so_el).(e_name) name then Some (rev (o :: acc), r) else split_closed name r (o :: acc)
+  end.
+(* index of selector k's handler among the handlers of one kind *)
+Definition kind_index (has : sel_feat -> bool) (sels : list sel_feat) (k : nat) : nat := length (filter has (firstn k sels)).
+Definition has_el (s : sel_feat) := match s.(sf_el) with Some _ => true | None => false end.
+Definition in_scope (st : sstate) (k : nat) : bool := existsb (fun o => existsb (Nat.eqb k) o.(so_matched)) st.(ss_open).
+Definition scoped (kind : xkind) (has : sel_feat -> bool) (has_doc : doc_feat -> bool) (sels : list sel_feat) (docs : list doc_feat) (st : sstate) (loc e : nat) : list xevent :=
+  let ks := filter (fun k => match nth_error sels k with Some s => has s && in_scope st k | None => false end) (seq 0 (length sels)) in
+  map (fun k => mkX kind (kind_index has sels k) loc e) ks
+  ++ map (fun j => mkX kind (length (filter has sels) + j) loc e) (seq 0 (length (filter has_doc docs))).
+
+Fixpoint scope_events (sels : list sel_feat) (docs : list doc_feat) (evs : list stream_event) (st : sstate) : list xevent :=
+  match evs with
+  | [] => map (fun j => mkX XEnd j 0 0) (seq 0 (length (filter df_end docs)))
+  | SeStart name n attrs sc loc :: rest =>
+      let ancestors := map so_el st.(ss_open) in
+      let siblings := match st.(ss_open) with o :: _ => o.(so_children) | [] => st.(ss_root_children) end in
+      let el := mkElem name n attrs (Z.of_nat (S (length siblings))) (Z.of_nat (S (count_same name siblings))) in
+      let ids := filter (fun k => match nth_error sels k with Some s => selector_matches s.(sf_sel) el ancestors | None => false end) (seq 0 (length sels)) in
+      let st1 := match st.(ss_open) with
+                 | o :: r => mkSS2 (mkSO o.(so_el) (o.(so_children) ++ [name]) o.(so_matched) o.(so_start) o.(so_oe) :: r) st.(ss_root_children)
+                 | [] => mkSS2 [] (st.(ss_root_children) ++ [name]) end in
+      let stays_open := if ns_eqb n Html then negb (is_void_name name) else negb sc in
+      let oe := fold_left (fun acc k => match nth_error sels k with Some s => match s.(sf_el) with Some m => acc + m | None => acc end | None => acc end) ids 0 in
+      let st2 := if stays_open then mkSS2 (mkSO el [] ids loc oe :: st1.(ss_open)) st1.(ss_root_children) else st1 in
+      map (fun k => mkX XEl (kind_index has_el sels k) loc loc) (filter (fun k => match nth_error sels k with Some s => has_el s | None => false end) ids)
+      ++ scope_events sels docs rest st2
+  | SeEnd name loc :: rest =>
+      match split_closed name st.(ss_open) [] with
+      | None => scope_events sels docs rest st
+      | Some (closed, remaining) =>
+          flat_map (fun o => map (fun _ => mkX XEt o.(so_start) loc loc) (seq 0 o.(so_oe))) closed
+          ++ scope_events sels docs rest (mkSS2 remaining st.(ss_root_children))
+      end
+  | SeText loc e :: rest => scoped XTx sf_tx df_tx sels docs st loc e ++ scope_events sels docs rest st
+  | SeComment loc :: rest => scoped XCm sf_cm df_cm sels docs st loc loc ++ scope_events sels docs rest st
+  | SeDoctype loc :: rest =>
+      map (fun j => mkX XDt j loc loc) (seq 0 (length (filter df_dt docs))) ++ scope_events sels docs rest st
+  end.
+
+(* the full token stream of a document from the tokenizer model with everything captured *)
+Record allctl := mkAllCtl { ac_events : list stream_event }.
+Definition ALL_FLAGS : N := (FLAG_TEXT + FLAG_COMMENTS + FLAG_NEXT_START_TAG + FLAG_NEXT_END_TAG + FLAG_DOCTYPES)%N.
+Definition all_controller : controller allctl := {|
+  c_initial_flags := fun _ => ALL_FLAGS;
+  c_start_tag := fun c _ _ _ _ => (c, SFlags ALL_FLAGS);
+  c_aux_info := fun c _ _ _ => (c, FOk ALL_FLAGS);
+  c_end_tag := fun c _ _ => (c, ALL_FLAGS);
+  c_token := fun c t =>
+    (mkAllCtl (match t with
+     | TStart name _ n attrs sc _ loc => SeStart name n (map (fun a => (a.(av_name), a.(av_value))) attrs) sc loc.(rs)
+     | TEnd name _ _ loc => SeEnd name loc.(rs)
+     | TText _ _ _ loc => SeText loc.(rs) loc.(re)
+     | TComment _ _ loc => SeComment loc.(rs)
+     | TDoctype _ _ _ _ _ loc => SeDoctype loc.(rs)
+     end :: c.(ac_events)), OOk []);
+  c_end := fun c => (c, [], None);
+  c_should_emit := fun _ => true;
+  c_bail_out := fun c _ => (c, []);
+  c_mem_usage := fun _ => 0%N |}.
+Definition token_stream (doc : bytes) : list stream_event :=
+  let cfg := mkSettings false (2^40)%N 0 false false 0 in
+  let (r, _) := api_run all_controller (new_rewriter all_controller cfg (mkAllCtl [])) [Write doc; End] in
+  rev r.(rw_stream).(s_ctx).(c_disp).(d_ctl).(ac_events).
+Definition scope_expected (sels : list sel_feat) (docs : list doc_feat) (doc : bytes) : list xevent :=
+  scope_events sels docs (token_stream doc) (mkSS2 [] []).
